@@ -34,7 +34,9 @@ ASSUMPTIONS = ["numpy linear algebra (eig, inv, einsum) is correct",
                "tensor is tighter than 3e-8 max|C|",
                "Stroh solutions whose three roots p (Im p > 0, recomputed here from the companion matrix) come closer than "
                "gap get every rounding tolerance multiplied by 1 + 1/gap (near-degenerate eigenvectors); problems the "
-               "solver refuses with its documented ValueError are counted, not judged"]
+               "solver refuses with the ValueError of its self-checks are counted, not judged, as long as two roots are closer "
+               "than 0.25 (largest separation among refusals on the unchanged tree: 1.6e-2); a refusal of well separated "
+               "roots is reported as a violation, a refusal share above 12 % as a harness error"]
 LEVEL_TEXT = ("Generated-input exploration of Stroh, IsotropicVolterraDislocation and solve_volterra_dislocation over "
               "positive-definite media of every crystal class, all Burgers characters, orientations by rotation or Miller "
               "indices, all m/n choices and field points off the line: Burgers jump and continuity, strain = sym grad u and "
@@ -489,7 +491,14 @@ def oracle_energy(case):
         pos = np.array([x * S.m + case['z'] * S.xi for x in case['xs']] + [S.n * case['xs'][0] - 0.5 * S.m])
         before = {nm: field(sol, nm, pos) for nm in ('displacement', 'strain', 'stress')}
         b, kw = solver_args(prob, S)
-        sol.solve(am.ElasticConstants(Cij=2.0 * S.C6), (-1.5 * np.asarray(b, dtype=float)).tolist() if prob['aslist'] else -1.5 * np.asarray(b, dtype=float), **kw)
+        try:
+            sol.solve(am.ElasticConstants(Cij=2.0 * S.C6), (-1.5 * np.asarray(b, dtype=float)).tolist() if prob['aslist'] else -1.5 * np.asarray(b, dtype=float), **kw)
+        except ValueError as e:
+            # a borderline near-degenerate problem can pass the solver's self-checks for C and fail them for 2 C
+            if str(e) in STROH_REFUSALS and not S.iso and S.gap < GAP_REFUSAL:
+                labels.add('resolve_refused')
+                return labels
+            raise
         K2 = np.asarray(sol.K_tensor, dtype=float)
         close(np.abs(K2 - 2 * K).max(), 1e-9 * S.amp * kmax, 'resolve_K', lambda: 'after solve(2 C, -1.5 b) on the same object K_tensor is\n%r\nexpected twice\n%r' % (K2, K))
         for nm, f in (('displacement', -1.5), ('strain', -1.5), ('stress', -3.0)):
